@@ -2,7 +2,6 @@
 From Coq Require Import Reals ZArith Lra.
 From Flocq Require Import Core.Raux.
 From WNTRV Require Import C06.Model C06.Proofs C05.Tank C06.Limits.
-From Interval Require Import Tactic.
 Local Open Scope R_scope.
 
 Theorem C06_cyl_integration : forall h q dt d, 0 < d -> volume d (new_head h q dt d) - volume d h = q * dt.
@@ -34,7 +33,10 @@ Proof. exact max_level_invariant. Qed.
 Example C06_cut_step_applies : exists L', step 2 1 1 2 L'.
 Proof.
   eexists. apply (s_cut 2 1 1 2 (-1) 10%Z); try lra; try reflexivity.
-  - unfold level_after, area. interval.
+  - unfold level_after, area. pose proof PI_4 as H4. pose proof PI_RGT_0 as H0.
+    assert (1 <= 10 / (PI * 2 ^ 2 / 4)).
+    { apply (Rmult_le_reg_r (PI * 2 ^ 2 / 4)); [lra|]. field_simplify; lra. }
+    replace (-1 * IZR 10 / (PI * 2 ^ 2 / 4)) with (- (10 / (PI * 2 ^ 2 / 4))) by (field; lra). lra.
   - rewrite Rabs_left by lra. lra.
 Qed.
 Print Assumptions C06_cyl_integration.
